@@ -200,6 +200,8 @@ def gen_cases(tier, seed):
             cases.append(dict(kind="special", what="big-norm-eps", m=m, n=n, idx=blk))
     for k in range(4):
         cases.append(dict(kind="special", what="wide-zero-columns", k=k))
+    for k in range(2):
+        cases.append(dict(kind="special", what="native-seed", k=k))
     for m in (26, 30):
         for off in (0.0, 1e4):
             cases.append(dict(kind="special", what="tall-krum-float32", m=m, offset=off))
@@ -592,7 +594,7 @@ def run_special(case, ctx):
             x = call(agg, J)
             if x is None:
                 continue
-            for extra in (1000, 5000):
+            for extra in ((1000, 5000, 70000) if name in ("UPGrad", "DualProj", "CAGrad", "AlignedMTL", "Mean") else (1000, 5000)):
                 y = call(agg, np.hstack([J, np.zeros((3, extra))]))
                 if y is None:
                     continue
@@ -602,6 +604,35 @@ def run_special(case, ctx):
                                     f"old coordinates {y[:6].tolist()} vs {x.tolist()}, new coordinates max |.|={float(np.abs(y[6:]).max()):.3g}")
             ctx.nontrivial += 1
             ctx.outcomes.add(f"wzc:{name}:" + digest(np.round(x, 6).tolist()))
+    elif what == "native-seed":
+        # the SAME instance of a randomised aggregator, torch.manual_seed before every call (no replayed draws): a second call must
+        # behave like the first, and the draws must not depend on the column layout
+        mats = [np.array([[1.0, -2.0, 0.5], [-1.0, 1.0, 2.0], [0.5, 0.5, -1.0]]), np.array([[1.0, 0.0, 1.0], [-1.0, 1.0, 0.0], [-0.5, -2.0, 0.5], [0.25, -1.0, -1.0]])]
+        J = mats[case["k"]]
+        n = J.shape[1]
+        s = A.sigma_max(J)
+        for name, mk, percol in (("PCGrad", T.PCGrad, False), ("Random", T.Random, False), ("GradDrop", T.GradDrop, True)):
+            agg = mk()
+            for seed_ in range(6):
+                def run(M):
+                    torch.manual_seed(seed_)
+                    ctx.execs += 1
+                    return agg(torch.tensor(M, dtype=torch.float64)).numpy()
+                x, x2 = run(J), run(J)
+                if float(np.abs(x - x2).max()) > 0:
+                    ctx.viol.append(dict(sig=f"seed-not-honoured-on-reuse:{name}", msg=f"{name} J={J.tolist()} manual_seed({seed_}) twice on one instance: {x.tolist()} vs {x2.tolist()}"))
+                    continue
+                if percol:
+                    continue  # GradDrop draws one number per column: a column permutation legitimately permutes the draws
+                for perm in itertools.permutations(range(n)):
+                    y = run(J[:, list(perm)])
+                    ctx.compare(f"special:native-seed:{name}", float(np.abs(y - x[list(perm)]).max()), 1e-9 * s, f"perm:{name}:native-seed",
+                                lambda: f"{name} J={J.tolist()} columns {list(perm)} manual_seed({seed_}): {y.tolist()} vs {x[list(perm)].tolist()}")
+                y = run(np.hstack([J, np.zeros((J.shape[0], 2))]))
+                ctx.compare(f"special:native-seed:{name}", max(float(np.abs(y[:n] - x).max()), float(np.abs(y[n:]).max())), 1e-9 * s,
+                            f"zero-column:{name}:native-seed", lambda: f"{name} J={J.tolist()} + 2 zero columns, manual_seed({seed_}): {y.tolist()} vs {x.tolist()}")
+            ctx.nontrivial += 1
+            ctx.outcomes.add(f"ns:{name}:{case['k']}")
     else:  # tall-krum-float32
         m, off = case["m"], case["offset"]
         n = 3
